@@ -21,7 +21,8 @@ type Case struct {
 	Doc       Doc    `json:"doc"`
 	Keep      Keep   `json:"keep"`
 	KeepTags  bool   `json:"keep_tags"`
-	Engine    string `json:"engine"` // sched (owned scheduler) | plain (no hook, repeated) | filter
+	IDKind    string `json:"id_kind,omitempty"` // ids mapped to negative or huge values (documentation of the generator's choice)
+	Engine    string `json:"engine"`            // sched (owned scheduler) | plain (no hook, repeated) | filter
 	Procs     int    `json:"procs"`
 	Choices   []int  `json:"choices,omitempty"`
 	Policy    string `json:"policy,omitempty"` // base order of enabled entities for the owned scheduler
@@ -222,6 +223,26 @@ func genChain(t *rapid.T) (Doc, Keep) {
 	return d, Keep{Kind: "tags", Tags: map[string][]string{key: {val}}}
 }
 
+// remapIDs replaces every id (and every reference to it, dangling ones included) by f(kind, id): ids in OSM are any
+// int64 - editors use negative ids for objects not yet uploaded, and nothing bounds them by 2^40.
+func remapIDs(d *Doc, f func(kind string, id int64) int64) {
+	for i := range d.Nodes {
+		d.Nodes[i].ID = f("node", d.Nodes[i].ID)
+	}
+	for i := range d.Ways {
+		d.Ways[i].ID = f("way", d.Ways[i].ID)
+		for j := range d.Ways[i].Refs {
+			d.Ways[i].Refs[j] = f("node", d.Ways[i].Refs[j])
+		}
+	}
+	for i := range d.Rels {
+		d.Rels[i].ID = f("relation", d.Rels[i].ID)
+		for j := range d.Rels[i].Members {
+			d.Rels[i].Members[j].Ref = f(d.Rels[i].Members[j].Type, d.Rels[i].Members[j].Ref)
+		}
+	}
+}
+
 func gen(t *rapid.T) Case {
 	var c Case
 	if vkit.Tier() == "thorough" && rapid.IntRange(0, 499).Draw(t, "pbf") == 317 {
@@ -258,6 +279,25 @@ func gen(t *rapid.T) Case {
 		f := genKeep(t, false)
 		c.Filter = &f
 		c.KeepTags = true
+	}
+	if idk := rapid.SampledFrom([]string{"", "", "", "negative", "huge40", "huge44", "huge62", "mixed"}).Draw(t, "idkind"); idk != "" {
+		c.IDKind = idk
+		base := map[string]int64{"negative": 0, "huge40": 1 << 40, "huge44": 1<<44 + 1, "huge62": 1<<62 + 11}
+		remapIDs(&c.Doc, func(kind string, id int64) int64 {
+			switch idk {
+			case "negative":
+				return -id
+			case "mixed": // another range per element type
+				switch kind {
+				case "node":
+					return -id
+				case "way":
+					return id + 1<<40
+				}
+				return id + 1<<44
+			}
+			return id + base[idk]
+		})
 	}
 	if f := os.Getenv("VERIF_C18_FORCE"); f != "" {
 		// sensitivity experiments only (see DESIGN.md): restrict to one engine and the conventional element order
@@ -330,6 +370,9 @@ func run(c Case) (v vkit.Verdict) {
 	xml := []byte(c.Doc.XML())
 	want, dangling := Model(c.Doc, c.Keep)
 	v.Class("engine_" + c.Engine)
+	if c.IDKind != "" {
+		v.Class("ids_" + c.IDKind)
+	}
 	v.Class("keep_" + c.Keep.Kind)
 	v.Class("order_" + c.OrderKind)
 	if dangling {
@@ -452,7 +495,7 @@ func TestProp(t *testing.T) {
 		Rule: "rapid: OSM XML documents of 0-25 nodes on a half-unit grid, 0-12 ways (1-6 node refs, shared nodes, closed ways), 0-8 relations (node/way/relation members, relations of " +
 			"relations incl. self and mutual cycles), tags from a 3x3 alphabet, 5% with dangling references; element order conventional, reversed, a drawn permutation, or every way directly after " +
 			"the last node it references; keep = KeepTags (drawn key/value sets incl. empty value lists), KeepBounds (drawn box; objects inside, outside, on the border), KeepAll; keepTags on/off; " +
-			"1-8 workers (GOMAXPROCS). Engines: (sched) the owned scheduler - the pool's workers and reading loop park at the verif hook points and inside the keep function; a drawn choice list picks " +
+			"1-8 workers (GOMAXPROCS); in 5 cases of 8 all ids and references are mapped to negative values or beyond 2^40 / 2^44 / 2^62. Engines: (sched) the owned scheduler - the pool's workers and reading loop park at the verif hook points and inside the keep function; a drawn choice list picks " +
 			"which enabled entity runs next, so a schedule is a replayable list of integers; (plain) no hook, 1-3 repetitions at GOMAXPROCS 1-16; (stress, 1 case in 11) no hook, 20-60 repetitions at GOMAXPROCS 2-64 of a drawn document or of a one-store-per-pass dependency chain (tagged relation -> ... -> relation -> way -> nodes listed deepest first), for interleavings between the hook points that only real threads produce; (filter) Filter(KeepTags|KeepAll) of an extraction; (pbf, thorough only, a fraction of a percent of the cases) the repository's Honolulu extract through ExtractPBF with drawn tag/bounds filters against the model fed by the same scanner's object stream. " +
 			"Oracle: sequential least-fixed-point model (selected by keep against the set itself, or referenced from the set) computed by naive iteration; id sets and payloads (coordinates, node " +
 			"lists, members, tags iff keepTags) must equal the model for every schedule and worker count; Check() nil when the document has no dangling reference; Filter result = model applied to " +
